@@ -39,7 +39,7 @@ func runC34(c *Ctx) {
 	r := c.R
 	t0 := time.Now()
 	defer func() { r.Extra["rules_wall_s"] = time.Since(t0).Seconds() }()
-	r.Rule("C34.R1", "in both NextNAL functions no return of a NAL unit is reachable from a statement that accumulates into the NAL buffer (append in the loop, the prefix helper's first byte) without passing a test of the SEI filter (a branch that depends on includeSEI); the filter predicate, tabulated over (includeSEI, unit type), is true exactly for (false, SEI type) or exactly for the complement", 4)
+	r.Rule("C34.R1", "in both NextNAL functions no return of a NAL unit is reachable from a statement that accumulates into the NAL buffer (append in the loop, the prefix helper's first byte) without passing a test of the SEI filter (a branch that depends on includeSEI); the filter predicate, tabulated over (includeSEI, unit type), is true exactly for (false, SEI type) or exactly for the complement", 6)
 	r.Rule("C34.R2", "h264reader and h265reader agree structurally (alpha-normalised, H264/H265 name parts removed) on read, processByte and the start-code prefix helper", 3)
 	r.Rule("C34.R3", "NAL header bit layout, evaluated for every header byte value: H.264 F=bit7, NRI=bits6-5, type=bits4-0; H.265 F=b0 bit7, type=b0 bits6-1, layer=(b0 bit0)<<5|b1 bits7-3, tid=b1 bits2-0; every other NAL-type extraction in the reader packages uses the type bits", 9)
 	r.NotCovered = append(r.NotCovered, "exactness of start-code scanning over arbitrary read-chunk sizes (processByte's automaton is compared between the readers, not with the Annex-B grammar)", "emulation-prevention bytes / trailing zero bytes")
